@@ -83,6 +83,10 @@ def _irrefutable(p):
         return _irrefutable(p['p'])
     if k == 'PTuple':
         return all(_irrefutable(x) for x in p['pats'])
+    if k == 'PStruct' and 'Variant' not in ((p.get('res') or {}).get('dk') or 'Variant'):
+        # a pattern of a struct (not of an enum variant) only destructures
+        subs = p.get('pats', []) if k == 'PTupleStruct' else [x for _, x in p.get('fields', [])]
+        return all(_irrefutable(x) for x in subs)
     return False
 
 
